@@ -333,6 +333,11 @@ def check_handoff(ctx, W, roots):
         for rec, ctor, pi, node in h.wrappers:
             n += check_wrapper(ctx, W, tu, rec, ctor, pi, wseen)
         records.append((tu, f, pidx, h, inst, name, file))
+        for prm, mv, cons in moved_lvalue_params(tu, f):
+            if prm['id'] == f['params'][pidx]['id']:
+                ctx.violation(R1, inst, 'std::move is applied to the closure parameter `%s` at %s although in this instantiation it is an '
+                              'lvalue reference (`%s`): the caller\'s own object is moved from' % (prm['name'], tu.loc(mv), prm['ct']),
+                              tu.loc(mv), key='%s|%s|%s|moves-from-callers-lvalue' % (R1, file, name))
         for u in h.undecided:
             ctx.undecided(R1, inst, u, tu.fn_loc(f))
         bad = False
@@ -601,16 +606,16 @@ def flag_read(tu, rec, e, depth=0):
     k = c.get('kind')
     if k == 'UnaryOperator' and c.get('opcode') == '!':
         r = flag_read(tu, rec, tu.kids(c)[0], depth + 1)
-        return None if r is None else (r[0], r[1], -r[2])
+        return None if r is None else (r[0], r[1], -r[2]) + tuple(r[3:])
     a = atomic_op(tu, c)
     if a is not None and a[0] == 'load':
         m = member_of_this(tu, a[1])
         if m is not None:
-            return (m, a[3], 1)
+            return (m, a[3], 1, c)
         return None
     m = member_of_this(tu, c)
     if m is not None and X.clean_t(tu.sd(c).get('ct', '')) == 'bool':
-        return (m, 'plain', 1)
+        return (m, 'plain', 1, c)
     if k == 'CXXMemberCallExpr':
         sd, obj, args = tu.call_parts(c)
         callee = tu.callee_fn(c)
@@ -800,6 +805,52 @@ def check_result_protocol(ctx, W, o, joiner):
                       % (flagn, fct), tu.fn_loc(o.ctor), key='%s|%s|%s|flag-not-atomic' % (R3, file, rn))
     else:
         ctx.undecided(R3, inst0 + ': completion flag `%s`' % flagn, 'completion flag of unrecognised type %s' % fct, tu.fn_loc(o.ctor))
+    # ---- get(): how is the read of the result synchronised with the task? (U: not at all, F: the flag was seen true, J: joined)
+    ginst = inst0 + ': get()'
+    gg = tu.cfg(getf)
+    gproblems, relies, weak_loads = [], [], []
+    gbusy = set()
+
+    def gtransfer(blk, idx, e, st):
+        if e[0] != 'S':
+            return [st]
+        x = tu.node(e[1])
+        if x is None:
+            return [st]
+        if joiner.is_join_call(o, x):
+            return ['J']
+        if st != 'J' and x.get('kind') == 'CXXMemberCallExpr':
+            sd0, obj0, args0 = tu.call_parts(x)
+            c0 = tu.callee_fn(x)
+            if obj0 is not None and X.is_this_expr(tu, obj0) and c0 is not None and c0.get('recid') == rec['id'] \
+                    and tu.cfg(c0) is not None and c0['id'] not in gbusy and c0['id'] != getf['id']:
+                # an own method after which, on every path, the flag was seen true or the task was joined
+                gbusy.add(c0['id'])
+                sub, _r0 = X.exit_states(tu.cfg(c0), [st], gtransfer, grefine)
+                gbusy.discard(c0['id'])
+                if sub and all(y == 'J' for y in sub):
+                    return ['J']
+                if sub and all(y in ('J', 'F') for y in sub):
+                    return ['F']
+        if x.get('kind') == 'MemberExpr' and member_of_this(tu, x) == res and not gbusy:
+            if st == 'U':
+                gproblems.append(('get-unsynchronised', 'get() reads the result `%s` at %s on a path where neither the completion flag '
+                                  'was seen true (with acquire or stronger) nor the task was waited for: it can return a value that is '
+                                  'not (completely) written yet' % (resn, tu.loc(x)), tu.loc(x)))
+            elif st == 'F':
+                relies.append(tu.loc(x))
+        return [st]
+
+    def grefine(blk, si, st):
+        if blk.cond and len(blk.succ) == 2 and st == 'U':
+            r = flag_read(tu, rec, tu.node(blk.cond))
+            if r is not None and r[0] == flag and ((si == 0) == (r[2] == 1)):
+                if r[1] in (2, 4, 5):
+                    return ['F']
+                weak_loads.append((r[3], r[1]))
+        return [st]
+    X.exit_states(gg, ['J' if joiner.trivially_joined(o) else 'U'], gtransfer, grefine)
+    relies = sorted(set(relies))
     # ---- closure: invoke once -> store result -> store flag(true); no result access afterwards
     #      (member functions of the same class called on `this` are inlined, the task function may be passed on as an argument)
     n += 1
@@ -928,9 +979,12 @@ def check_result_protocol(ctx, W, o, joiner):
                 if val != 1:
                     und.append('completion flag receives a value other than the constant true at %s' % tu.loc(x[1]))
                     return [st]
-                if a[3] not in (3, 5, 4, 'plain'):
-                    problems.append(('flag-store-order', 'the completion flag `%s` is stored with memory_order_%s at %s: the result store is '
-                                     'not ordered before it' % (flagn, ORDER.get(a[3], a[3]), tu.loc(x[1])), tu.loc(x[1])))
+                if a[3] not in (3, 5, 4, 'plain') and (relies or weak_loads):
+                    problems.append(('flag-store-order', 'the completion flag `%s` is stored with memory_order_%s at %s, so the store of the '
+                                     'result `%s` is not ordered before it -- and get() reads the result at %s on a path where seeing the flag '
+                                     'true is the only synchronisation with the task (it skips the wait): the read is unordered with the '
+                                     "task's write (data race; an incomplete value on weakly ordered machines)"
+                                     % (flagn, ORDER.get(a[3], a[3]), tu.loc(x[1]), resn, ', '.join(relies) or '?'), tu.loc(x[1])))
                 if not sto:
                     if unk:
                         und.append('the completion flag is set at %s after a call whose effect on `%s` is not followed' % (tu.loc(x[1]), resn))
@@ -970,11 +1024,14 @@ def check_result_protocol(ctx, W, o, joiner):
             if a is not None and a[0] == 'load' and member_of_this(tu, a[1]) == flag:
                 n += 1
                 minst = inst0 + ': %s reads `%s`' % (m['q'].split('::')[-1], flagn)
-                if a[3] in (2, 4, 5):
-                    ctx.ok(R3, minst, 'memory_order_%s' % ORDER[a[3]], tu.loc(x))
+                licensing = any(wn is not None and wn.get('id') == x.get('id') for wn, wo in weak_loads)
+                if a[3] in (2, 4, 5) or not licensing:
+                    ctx.ok(R3, minst, 'memory_order_%s%s' % (ORDER.get(a[3], a[3]), '' if a[3] in (2, 4, 5) else
+                                                             ' (a hint only: no read of the result depends on this load)'), tu.loc(x))
                 else:
-                    ctx.violation(R3, minst, 'the completion flag `%s` is loaded with memory_order_%s at %s: seeing true does not '
-                                  'make the stored result visible' % (flagn, ORDER.get(a[3], a[3]), tu.loc(x)), tu.loc(x),
+                    ctx.violation(R3, minst, 'the completion flag `%s` is loaded with memory_order_%s at %s and get() reads the result when '
+                                  'this load returned true without waiting for the task: seeing true does not make the stored result '
+                                  'visible' % (flagn, ORDER.get(a[3], a[3]), tu.loc(x)), tu.loc(x),
                                   key='%s|%s|%s::%s|flag-load-order' % (R3, tu.fn_file(m), rn, m['q'].split('::')[-1]))
     # ---- outside the closure the result member is only read (get() can be called any number of times)
     for m in sorted([f for f in tu.functions.values() if f.get('recid') == rec['id'] and not f['dep'] and tu.cfg(f) is not None
@@ -999,47 +1056,8 @@ def check_result_protocol(ctx, W, o, joiner):
                 ctx.violation(R3, minst, text, tu.loc(x), key='%s|%s|%s::%s|%s' % (R3, tu.fn_file(m), rn, mname, kind))
         if worst is None:
             ctx.ok(R3, minst, 'read-only (%d access(es): copied / bound to const / scalar read)' % len(uses), tu.fn_loc(m))
-    # ---- get(): the result is read only after flag==true or after a wait
+    # ---- get(): verdict of the analysis made above
     n += 1
-    ginst = inst0 + ': get()'
-    gg = tu.cfg(getf)
-    gproblems = []
-
-    def gtransfer(blk, idx, e, st):
-        if e[0] != 'S':
-            return [st]
-        x = tu.node(e[1])
-        if x is None:
-            return [st]
-        if joiner.is_join_call(o, x):
-            return [True]
-        if not st and x.get('kind') == 'CXXMemberCallExpr':
-            sd0, obj0, args0 = tu.call_parts(x)
-            c0 = tu.callee_fn(x)
-            if obj0 is not None and X.is_this_expr(tu, obj0) and c0 is not None and c0.get('recid') == rec['id'] \
-                    and tu.cfg(c0) is not None and c0['id'] not in gbusy and c0['id'] != getf['id']:
-                # an own method after which, on every path, the flag was seen true or the task was joined
-                gbusy.add(c0['id'])
-                sub, _r0 = X.exit_states(tu.cfg(c0), [False], gtransfer, grefine)
-                gbusy.discard(c0['id'])
-                if sub and all(sub):
-                    return [True]
-        if x.get('kind') == 'MemberExpr' and member_of_this(tu, x) == res and not st and not gbusy:
-            gproblems.append(('get-unsynchronised', 'get() reads the result `%s` at %s on a path where neither the completion flag '
-                              'was seen true nor the task was waited for: it can return a value that is not (completely) written yet'
-                              % (resn, tu.loc(x)), tu.loc(x)))
-        return [st]
-
-    def grefine(blk, si, st):
-        if blk.cond and len(blk.succ) == 2:
-            r = flag_read(tu, rec, tu.node(blk.cond))
-            if r is not None and r[0] == flag and r[1] in (2, 4, 5):
-                truth = (si == 0) == (r[2] == 1)
-                if truth:
-                    return [True]
-        return [st]
-    gbusy = set()
-    X.exit_states(gg, [joiner.trivially_joined(o)], gtransfer, grefine)
     gunf = joiner.unfollowed(o, getf) if gproblems else []
     if gunf:
         ctx.undecided(R3, ginst, 'get() hands the object / its task handle to %s, which is not followed: cannot establish whether the '
@@ -1048,7 +1066,9 @@ def check_result_protocol(ctx, W, o, joiner):
         for kind, text, loc in sorted(set(gproblems)):
             ctx.violation(R3, ginst, text, loc, key='%s|%s|%s::get|%s' % (R3, tu.fn_file(getf), rn, kind))
     else:
-        ctx.ok(R3, ginst, 'every read of `%s` is dominated by (`%s` seen true) or by a wait that joins the task' % (resn, flagn), tu.fn_loc(getf))
+        ctx.ok(R3, ginst, 'every read of `%s` is dominated by (`%s` seen true with acquire or stronger) or by a wait that joins the task%s'
+               % (resn, flagn, '; the flag is the synchronisation edge on some path' if relies else '; always joined, the flag is only a hint'),
+               tu.fn_loc(getf))
     return n
 
 
@@ -1417,6 +1437,48 @@ def check_wait_before_release(ctx, W, o, J, verdicts=None):
 RX_PTASK = re.compile(r'^std::packaged_task<')
 
 
+def moved_lvalue_params(tu, f):
+    """[(param, std::move call, consumer)] : a forwarding-reference parameter (`T &&`, T deduced) that in this instantiation is an
+    lvalue reference to a non-const object (the caller passed a named object it still owns) is cast to an rvalue with std::move and bound to a `T &&` parameter -- the caller's own object is gutted"""
+    out = []
+    decl = X.fn_decl(tu, f)
+    if decl is None:
+        return out
+    pat = tu.functions.get(f.get('pat')) if f.get('pat') else None
+    fwd = set()
+    if pat is not None:
+        for i, pp in enumerate(pat.get('params', [])):
+            if pp['ct'].rstrip().endswith('&&') and i < len(f['params']):
+                fwd.add(f['params'][i]['id'])     # declared `T &&` with T deduced: a forwarding reference
+    lv = {p['id']: p for p in f['params'] if p['id'] in fwd and p['ct'].rstrip().endswith('&') and not p['ct'].rstrip().endswith('&&')
+          and not p['ct'].lstrip().startswith('const ')}
+    if not lv:
+        return out
+    for x in tu.walk(decl):
+        if x.get('kind') == 'CallExpr' and tu.sd(x).get('q') == 'std::move':
+            args = tu.call_parts(x)[2]
+            c = tu.strip(args[0], casts=True) if args else None
+            d = c.get('referencedDecl', {}).get('id') if c is not None and c.get('kind') == 'DeclRefExpr' else None
+            if d in lv:
+                # what receives the xvalue
+                p = tu.par(x)
+                hops = 0
+                while p is not None and hops < 6 and p.get('kind') in ('ImplicitCastExpr', 'ParenExpr', 'MaterializeTemporaryExpr',
+                                                                       'ExprWithCleanups', 'CXXBindTemporaryExpr'):
+                    p = tu.par(p)
+                    hops += 1
+                steals = False
+                if p is not None and p.get('kind') in X.CONSTRUCTS + X.CALLS:
+                    sd, obj, pargs = X.call_parts(tu, p)
+                    pts = param_types(sd.get('fty', ''))
+                    idx = [i for i, a in enumerate(pargs) if x['id'] in {y.get('id') for y in tu.walk(a)}]
+                    steals = bool(idx) and idx[0] < len(pts) and pts[idx[0]].rstrip().endswith('&&')
+                    steals = steals or (bool(idx) and not pts)
+                if steals:
+                    out.append((lv[d], x, p))
+    return out
+
+
 def check_async(ctx, W, tu, f):
     g = tu.cfg(f)
     inst = label(W, tu, f)
@@ -1431,7 +1493,12 @@ def check_async(ctx, W, tu, f):
     if len(news) == 1:
         nb, ni, new = news[0]
         init = tu.node(tu.sd(new).get('init'))
-        wraps = init is not None and init.get('kind') in X.CONSTRUCTS and any(decl_ref(tu, a) == pid for a in tu.kids(init))
+        carriers = {pid}
+        for _ in range(2):
+            for y in tu.walk(decl):
+                if y.get('kind') == 'VarDecl' and tu.kids(y) and y['id'] not in carriers and decl_ref(tu, tu.kids(y)[-1]) in carriers:
+                    carriers.add(y['id'])
+        wraps = init is not None and init.get('kind') in X.CONSTRUCTS and any(decl_ref(tu, a) in carriers for a in tu.kids(init))
         if not wraps:
             und.append('the packaged_task is not constructed from the closure parameter')
         p = tu.par(new)
@@ -1511,6 +1578,12 @@ def check_async(ctx, W, tu, f):
         if k == 'CXXDeleteExpr' and tu.kids(n) and decl_ref(tu, tu.kids(n)[0]) == tvar:
             problems.append(('deleted-by-async', 'async() itself deletes the packaged_task `%s` that the scheduled closure invokes and '
                              'deletes (%s)' % (tname, tu.loc(n)), tu.loc(n)))
+    for prm, mv, cons in moved_lvalue_params(tu, f):
+        problems.append(('moves-from-callers-lvalue', 'async() applies std::move to its parameter `%s` at %s although in this '
+                         'instantiation it is an lvalue reference (`%s`, the caller passed a named callable): %s steals the state of the '
+                         'object the caller still owns -- a second async()/call of that callable runs a gutted closure (wrong value, or '
+                         'std::bad_function_call). A forwarding reference has to be passed on with std::forward<TASK_T>'
+                         % (prm['name'], tu.loc(mv), prm['ct'], (tu.sd(cons).get('q') or 'the receiving constructor')), tu.loc(mv)))
     if sched is None or lam is None:
         ctx.undecided(R5, inst, 'no call that hands a closure to the scheduler found in async()', loc)
         return 1
@@ -2162,7 +2235,7 @@ def check_publish_fence(ctx, W, tu, wake_fields, verdicts=None):
     findings = {}        # reading function id -> (fn, read node, publishing function, publish node)
 
     def run(fn, st0, origin, depth=0):
-        key = (fn['id'], st0[0])
+        key = (fn['id'], st0)
         if key in memo:
             return memo[key]
         if key in busy or depth > 6:
@@ -2188,7 +2261,7 @@ def check_publish_fence(ctx, W, tu, wake_fields, verdicts=None):
                     and st[0] == 'unfenced':
                 p = tu.par(x)
                 if p is not None and p.get('kind') == 'ImplicitCastExpr' and p.get('castKind') == 'LValueToRValue':
-                    findings.setdefault(fn['id'], (fn, x, st[1]))
+                    findings.setdefault((fn['id'], st[1][0] if st[1] else None), (fn, x, st[1]))
                 return [st]
             if x.get('kind') in X.CALLS:
                 c = tu.callee_fn(x)
@@ -2222,9 +2295,6 @@ def check_publish_fence(ctx, W, tu, wake_fields, verdicts=None):
             publishers.append(f)
             run(f, ('nopub', None), f)
     n = 0
-    by_reader = {}
-    for fid, (fn, x, pub) in findings.items():
-        by_reader[fid] = (fn, x, pub)
     for f in publishers:
         n += 1
     if verdicts is not None:
@@ -2233,7 +2303,7 @@ def check_publish_fence(ctx, W, tu, wake_fields, verdicts=None):
             bad = any(pub is not None and pub[0] == f['id'] for fn, x, pub in findings.values())
             verdicts.append((r7_name(f) + '#fence', bad))
         return n
-    for fid, (fn, x, pub) in sorted(findings.items(), key=lambda kv: kv[1][0]['q']):
+    for fid, (fn, x, pub) in sorted(findings.items(), key=lambda kv: (kv[1][0]['q'], str(kv[0][1]))):
         pf = tu.functions.get(pub[0]) if pub else None
         inst = '[%s] %s: reads the waiter count after a task was published' % (tu.config, fn['q']) + W.tag
         ctx.violation(R7, inst, 'the waiter count `%s` is read with a plain load at %s on a path from the publication of a task (%s at %s) '
@@ -3075,6 +3145,112 @@ def check_delete_under_lock(ctx, W, tu, only_prefix=None, verdicts=None):
     return n
 
 
+# ================================================================================================
+#  R-C02-11 scheduling makes progress on the calling thread alone: when its pipe is full the thread runs a task itself
+# ================================================================================================
+R11 = 'R-C02-11'
+
+
+def check_full_pipe_progress(ctx, W, tu, verdicts=None):
+    runners = reaches(tu, lambda q: q == X.ENKI_EXECUTE)
+    n = 0
+    for f in sorted(tu.functions.values(), key=lambda f: f['q']):
+        if f['dep'] or tu.cfg(f) is None:
+            continue
+        g = tu.cfg(f)
+        nodes = [(b, i, x) for b, i, x in g.stmts()]
+        writes = [(b, i, x) for b, i, x in nodes if x.get('kind') == 'CXXMemberCallExpr' and
+                  tu.sd(x).get('q', '').endswith('::WriterTryWriteFront')]
+        if not writes:
+            continue
+
+        def is_runner(x):
+            if x.get('kind') not in X.CALLS:
+                return False
+            if tu.sd(x).get('q') == X.ENKI_EXECUTE:
+                return True
+            c = tu.callee_fn(x)
+            return c is not None and c['id'] in runners and c['id'] != f['id']
+        runner_pos = {}
+        for b, i, x in nodes:
+            if is_runner(x):
+                runner_pos.setdefault(b.id, []).append(i)
+        n += 1
+        name = r7_name(f)
+        inst = '[%s] %s: pipe full' % (tu.config, f['q']) + W.tag
+        problems, und = [], []
+        for wb, wi, w in writes:
+            # the edge taken when the write failed
+            fail = None
+            for blk in g.blocks.values():
+                if not blk.cond or len(blk.succ) != 2:
+                    continue
+                c = core(tu, tu.node(blk.cond))
+                pol = 1
+                while c is not None and c.get('kind') == 'UnaryOperator' and c.get('opcode') == '!':
+                    pol = -pol
+                    c = core(tu, tu.kids(c)[0])
+                if c is not None and c.get('id') == w['id']:
+                    fail = blk.succ[1] if pol == 1 else blk.succ[0]
+            if fail is None:
+                okv = None
+                p = tu.par(w)
+                hops = 0
+                while p is not None and hops < 4 and p.get('kind') in ('ImplicitCastExpr', 'ParenExpr', 'ExprWithCleanups'):
+                    p = tu.par(p)
+                    hops += 1
+                if p is not None and p.get('kind') == 'VarDecl':
+                    okv = p['id']
+                elif p is not None and p.get('kind') == 'BinaryOperator' and p.get('opcode') == '=':
+                    okv = decl_ref(tu, tu.kids(p)[0])
+                if okv:
+                    for blk in g.blocks.values():
+                        if not blk.cond or len(blk.succ) != 2:
+                            continue
+                        c = core(tu, tu.node(blk.cond))
+                        pol = 1
+                        while c is not None and c.get('kind') == 'UnaryOperator' and c.get('opcode') == '!':
+                            pol = -pol
+                            c = core(tu, tu.kids(c)[0])
+                        if c is not None and c.get('kind') == 'DeclRefExpr' and c.get('referencedDecl', {}).get('id') == okv:
+                            fail = blk.succ[1] if pol == 1 else blk.succ[0]
+            if fail is None:
+                und.append('the result of the pipe write at %s is not tested in a recognised way' % tu.loc(w))
+                continue
+            # can the same write be retried from the failure edge without this thread having run a task in between?
+            seen, work, again = set(), [fail], False
+            while work:
+                bid = work.pop()
+                if bid in seen or bid is None:
+                    continue
+                seen.add(bid)
+                if bid == wb.id:
+                    if not any(ri < wi for ri in runner_pos.get(bid, [])):
+                        again = True
+                        break
+                    continue
+                if bid in runner_pos:
+                    continue            # this thread executes a task on this path: it makes progress on its own
+                work.extend(sx for sx in g.blocks[bid].succ if sx is not None)
+            if again:
+                problems.append(('full-pipe-waits-for-other-threads', 'when the pipe of the calling thread is full (%s at %s fails) the '
+                                 'function retries the same write without executing a task itself in between: progress of schedule() / '
+                                 'AsyncTask / parallel_for then depends on another thread draining this pipe -- with one scheduler thread, '
+                                 'or with every thread producing a burst of more than the pipe capacity, nobody does and the call never '
+                                 'returns. On a full pipe the partition has to be run inline (or the thread has to run queued tasks)'
+                                 % (tu.show(w), tu.loc(w)), tu.loc(w)))
+        if verdicts is not None:
+            verdicts.append((name + '#progress', True if problems else (None if und else False)))
+            continue
+        for u in sorted(set(und)):
+            ctx.undecided(R11, inst, u, tu.fn_loc(f))
+        for kind, text, loc in sorted(set(problems)):
+            ctx.violation(R11, inst, text, loc, key='%s|%s|%s|%s' % (R11, tu.fn_file(f), name, kind))
+        if not und and not problems:
+            ctx.ok(R11, inst, 'a failed pipe write is never retried before this thread has executed a task itself', tu.fn_loc(f))
+    return n
+
+
 def check_wait_drains(ctx, W):
     """TaskScheduler::WaitforTask(p) returns, for p != null, only after p's running count was read as zero"""
     tu = W.scheduler
@@ -3168,13 +3344,18 @@ EXPECT_RESULT_USE = {'rkverif::c02w::MovesOut': 'result-moved-out', 'rkverif::c0
 EXPECT_RUN = {'rkverif::c02w::detachedRun': False, 'rkverif::c02w::runAndWait': True, 'rkverif::c02w::runMaybeWait': False}
 EXPECT_LOCKED_DELETE = {'rkverif::c02w::reapUnderLock': True, 'rkverif::c02w::reapLambdaUnderLock': True,
                         'rkverif::c02w::reapOutsideLock': False, 'rkverif::c02w::reapAfterUnlock': False}
+EXPECT_PROGRESS = {'rkverif::c02w::Handshake::publishThenWake#progress': False, 'rkverif::c02w::Handshake::publishFenceThenWake#progress': False,
+                   'rkverif::c02w::Handshake::publishNoWake#progress': False, 'rkverif::c02w::Handshake::wakeThenPublish#progress': None,
+                   'rkverif::c02w::Handshake::publishSpinUntilRoom#progress': True, 'rkverif::c02w::Handshake::publishOrRunInline#progress': False}
 EXPECT_REINIT = {'rkverif::c02w::reinitKeepsScheduler': True, 'rkverif::c02w::reinitFresh': False, 'rkverif::c02w::reinitDrained': False}
 EXPECT_HANDSHAKE = {'rkverif::c02w::Handshake::sleepRegisteredFirst': False, 'rkverif::c02w::Handshake::sleepCheckedFirst': True,
                     'rkverif::c02w::Handshake::sleepUnregistered': True, 'rkverif::c02w::Handshake::publishThenWake': False,
                     'rkverif::c02w::Handshake::publishNoWake': True, 'rkverif::c02w::Handshake::wakeThenPublish': None,
                     'rkverif::c02w::Handshake::publishFenceThenWake': False, 'rkverif::c02w::Handshake::sleepPlainIncrement': True,
                     'rkverif::c02w::Handshake::publishThenWake#fence': True, 'rkverif::c02w::Handshake::publishFenceThenWake#fence': False,
-                    'rkverif::c02w::Handshake::publishNoWake#fence': False, 'rkverif::c02w::Handshake::wakeThenPublish#fence': False}
+                    'rkverif::c02w::Handshake::publishNoWake#fence': False, 'rkverif::c02w::Handshake::wakeThenPublish#fence': False,
+                    'rkverif::c02w::Handshake::publishOrRunInline': False, 'rkverif::c02w::Handshake::publishSpinUntilRoom': False,
+                    'rkverif::c02w::Handshake::publishOrRunInline#fence': False, 'rkverif::c02w::Handshake::publishSpinUntilRoom#fence': True}
 EXPECT_DTOR = {'rkverif::c02w::StartsTooEarly': False, 'rkverif::c02w::StartsLast': False, 'rkverif::c02w::NeverWaits': True,
                'rkverif::c02w::MovesOut': False, 'rkverif::c02w::Copies': False}
 
@@ -3243,6 +3424,11 @@ def check_witness(ctx, W, active_unused=None):
     if got != EXPECT_LOCKED_DELETE:
         bad.append('delete-under-lock detector: expected %s, got %s' % (EXPECT_LOCKED_DELETE, got))
     v = []
+    check_full_pipe_progress(ctx, W, tu, verdicts=v)
+    got = {k: c for k, c in v if k.startswith('rkverif::c02w::Handshake::')}
+    if got != EXPECT_PROGRESS:
+        bad.append('full-pipe progress detector: expected %s, got %s' % (EXPECT_PROGRESS, got))
+    v = []
     check_wake_protocol(ctx, W, tu, verdicts=v)
     got = {k: c for k, c in v if k.startswith('rkverif::c02w::Handshake::')}
     if got != EXPECT_HANDSHAKE:
@@ -3292,6 +3478,7 @@ def run_world(ctx, W):
         check_publication_order(ctx, W, tu)
     n7s, n7p = check_wake_protocol(ctx, W, W.scheduler)
     n10 = check_delete_under_lock(ctx, W, W.tasksys)
+    n11 = check_full_pipe_progress(ctx, W, W.scheduler)
     info = classify_scheduler(ctx, W)
     n8 = n9 = 0
     if info is None or not info['drains']:
@@ -3301,7 +3488,7 @@ def run_world(ctx, W):
         n8 = check_scheduler_teardown(ctx, W, info) + check_drain_before_discard(ctx, W, [W.tasksys], info)
         n9 = check_thread_index(ctx, W, info)
     check_witness(ctx, W)
-    return dict(n10=n10, n9=n9, n8=n8, n7s=n7s, n7p=n7p, n1=n1 + n_sub, names=names, n2=n2, n3=n3, n4=n4, n5=n5, n6=n6, nsites=nsites)
+    return dict(n11=n11, n10=n10, n9=n9, n8=n8, n7s=n7s, n7p=n7p, n1=n1 + n_sub, names=names, n2=n2, n3=n3, n4=n4, n5=n5, n6=n6, nsites=nsites)
 
 
 def floors(ctx, r, tag=''):
@@ -3318,6 +3505,7 @@ def floors(ctx, r, tag=''):
     ctx.floor(R5, r['n5'], 8, 'async<IntJob>, async<StringJob&> x 4 backends' + tag)
     ctx.floor(R6, r['n6'], 5, 'ExecuteRange overrides: schedule_internal x 3, AsyncTaskImpl, parallel_for_internal' + tag)
     ctx.floor(R6, r['nsites'], 2, 'ExecuteRange call sites in TaskScheduler.cpp: 3' + tag)
+    ctx.floor(R11, r['n11'], 1, 'functions of the scheduler that write a task to a pipe: SplitAndAddTask' + tag)
     ctx.floor(R10, r['n10'], 1, 'functions of TaskSys.cpp that take the detached-task mutex: scheduleDetachedTaskInternal' + tag)
     ctx.floor(R9, r['n9'], 1, 'thread-local pipe index variables used for writer-side pipe operations: gtl_threadNum' + tag)
     ctx.floor(R8, r['n8'], 2, 'scheduler destructor + initTaskSystemInternal' + tag)
@@ -3341,6 +3529,8 @@ def run(ctx):
     ctx.assume('tbb::task_arena::enqueue, tbb::task_group::run, std::thread and the enkiTS pipe invoke a submitted callable exactly once '
                '(backend contract; the enkiTS partition/pipe bookkeeping is the subject of C01/C12)')
     ctx.assume('std::packaged_task / std::future deliver the value of the invoked callable (standard library contract)')
+    ctx.describe(R11, 'scheduling makes progress on the calling thread alone: a failed (full) pipe write is not retried before the thread '
+                      'has executed a task itself')
     ctx.describe(R10, 'no task object is destroyed (closure destructor = user code that may call schedule()) while a mutex is held that the '
                       'scheduling entry points lock themselves')
     ctx.describe(R9, 'who may write a single-writer pipe: every thread that can reach a writer-side pipe operation through a public entry '
